@@ -10,6 +10,7 @@ import (
 	"fmt"
 	"hash/fnv"
 	"os"
+	"runtime"
 	"sort"
 	"strconv"
 	"strings"
@@ -167,10 +168,11 @@ type Result struct {
 	AllHash   string            `json:"all_hash,omitempty"` // hash over all runs' schedule hashes in order (determinism protocol)
 	Deadlocks int               `json:"deadlocks"`
 	Known     map[string]int    `json:"known,omitempty"`
-	OutHash   string            `json:"out_hash,omitempty"` // digest over all runs' output digests, in order
+	OutHash   string            `json:"out_hash,omitempty"`  // digest over all runs' output digests, in order
 	RaceText  string            `json:"race_text,omitempty"` // the race detector's reports written during the violating run only
 }
 
+var gcOff = os.Getenv("GOGC") == "off"
 var knownSigs []string
 var ownProps []string
 var modulePrefix = func() string {
@@ -326,6 +328,11 @@ func Main(t *testing.T, scens map[string]Scenario) {
 				os.WriteFile(progress, []byte(strconv.Itoa(run)), 0644)
 			}
 			os.WriteFile(progress+".cur", []byte(strconv.Itoa(run)), 0644)
+			if gcOff && (run-from)%128 == 127 {
+				// back end B runs with the collector switched off (no background workers inside a bubble); memory
+				// is reclaimed here, between runs, at a point that is the same in every process
+				runtime.GC()
+			}
 			c := kern.NewChoices(kern.Mix(seed, uint64(run)))
 			ctx := runOne(run, c, false)
 			merge(ctx)
@@ -372,6 +379,12 @@ func Main(t *testing.T, scens map[string]Scenario) {
 		res.TraceHash = fmt.Sprintf("%016x", th.Sum64())
 	default:
 		t.Fatalf("unknown VW_MODE %q", mode)
+	}
+	if f := os.Getenv("VW_GOROUTINE_DUMP"); f != "" {
+		// debugging aid: what is still alive after the last run (leaks across runs)
+		buf := make([]byte, 64<<20)
+		n := runtime.Stack(buf, true)
+		os.WriteFile(f, append([]byte(fmt.Sprintf("goroutines=%d\n", runtime.NumGoroutine())), buf[:n]...), 0644)
 	}
 	for k := range scheds {
 		res.Scheds = append(res.Scheds, k)
